@@ -46,6 +46,7 @@ class Path:
         p = Path(self.cond, self.env, self.yields, self.heap)
         for e in facts:
             if e is not None and not z3.is_true(e):
+                e = z3.And(e, z3.BoolVal(True))  # a distinct AST: branch decisions with the same text stay branch decisions
                 ASSUMED.add(e.get_id())
                 _KEEP.append(e)
                 p.cond.append(e)
@@ -670,8 +671,8 @@ class Exec:
             it = z3.simplify(i.t)
             if z3.is_int_value(it) and it.as_long() < 0:
                 it = z3.simplify(n + it)
-            else:
-                it = z3.If(it < 0, n + it, it) if not z3.is_int_value(it) else it
+            elif not z3.is_int_value(it) and self.feasible(p.cond + [it < 0]):
+                it = z3.If(it < 0, n + it, it)   # negative indices count from the end
             p = self.implicit(p, z3.Not(z3.And(it >= 0, it < n)), "IndexError", node)
             if base.concrete and not base.items:
                 raise DeadPath()
